@@ -388,6 +388,8 @@ def first_diff(a, b, path=''):
 
 
 def gallina_case(desc, o):
+    '''one Gallina expression per case: (observe e ro fo [, wf_engineb e rk]);
+    the engine literal is elaborated once (it dominates the cost).'''
     term, t = engine_gen.to_gallina(desc)
 
     def nm(s):
@@ -395,7 +397,14 @@ def gallina_case(desc, o):
     ro = '[' + ';'.join(nm(r) for r in o['roots']) + ']'
     fo = '[' + ';'.join('(%s,[%s])' % (nm(k), ';'.join(nm(f) for f in d['fb']))
                         for k, d in o['v'].items() if len(d['fb']) > 1) + ']'
-    return '(observe %s %s %s)%%nat' % (term, ro, fo), t
+    rank = engine_gen.topo_rank(desc)
+    if rank is None:
+        body = 'observe e %s %s' % (ro, fo)
+    else:
+        rk = '[' + ';'.join('([%d;%d],%d)' % (t.id(p), t.id(a), r)
+                            for (p, a), r in sorted(rank.items())) + ']'
+        body = '(observe e %s %s, wf_engineb e %s)' % (ro, fo, rk)
+    return '(let e : engine := %s in %s)%%nat' % (term, body), t, rank is not None
 
 
 # ---------------------------------------------------------------------------
@@ -497,30 +506,36 @@ def run_cases(ctx, cases, real_dot=2):
                            'theorem': 'C09_%s' % hits[0][0]})
             nviol += 1
     # ---- model side ------------------------------------------------------
-    exprs, tables, idx = [], [], []
+    # one expression per case: observe ... and, for every engine with a
+    # topological rank, the theorems' hypothesis wf_engineb with that witness
+    exprs, kinds = [], []
     for i, ((cid, desc, wf), o) in enumerate(zip(cases, impl)):
         if o['selfcheck'] or o['exc'] is not None:
             continue
-        g, t = gallina_case(desc, o)
+        g, t, has_wf = gallina_case(desc, o)
         exprs.append(g)
-        tables.append(t)
-        idx.append(i)
+        kinds.append((i, t, has_wf))
     ctx.log('implementation ran on %d cases' % len(impl))
-    vals = ctx.coq_eval(['DV.Model.Dag'], exprs, chunk=60, z_scope=False)
-    ctx.log('model ran on %d cases' % len(vals))
-    # the theorems' hypothesis, evaluated on every generated engine with the
-    # topological rank of its descriptor as witness
-    wexprs, widx = [], []
-    for i, t in zip(idx, tables):
-        rank = engine_gen.topo_rank(cases[i][1])
-        if rank is None:
-            continue
-        rk = '[' + ';'.join('([%d;%d],%d)' % (t.id(p), t.id(a), r)
-                            for (p, a), r in sorted(rank.items())) + ']'
-        wexprs.append('(wf_engineb %s %s)%%nat' % (engine_gen.to_gallina(cases[i][1], t)[0], rk))
-        widx.append(i)
-    wvals = ctx.coq_eval(['DV.Model.Dag'], wexprs, chunk=120, z_scope=False)
-    ctx.log('hypotheses evaluated on %d cases' % len(wvals))
+    allvals = ctx.coq_eval(['DV.Model.Dag'], exprs, chunk=18, z_scope=False)
+    ctx.log('model ran on %d cases' % len(allvals))
+    mismatch = None
+    widx, wvals = [], []
+    nobs = 0
+    for (i, t, has_wf), val in zip(kinds, allvals):
+        if has_wf:
+            widx.append(i)
+            wvals.append(val[8])
+            val = val[:8]
+        nobs += 1
+        a = canon_impl(impl[i])
+        b = canon_model(val, t)
+        d = first_diff(a, b)
+        if d and mismatch is None:
+            mismatch = (cases[i][0], cases[i][1], d)
+    ctx.count(evaluations=nobs, nontrivial_keys=keys)
+    for k, v in hist.items():
+        ctx.cov.setdefault('input_histogram', {})
+        ctx.cov['input_histogram'][k] = ctx.cov['input_histogram'].get(k, 0) + v
     nwf = 0
     for i, w in zip(widx, wvals):
         nwf += bool(w)
@@ -529,17 +544,6 @@ def run_cases(ctx, cases, real_dot=2):
                        % (w, cases[i][0], cases[i][2]), json.dumps(cases[i][1])[:3000],
                        {'source': 'correspondence', 'case': cases[i][0], 'engine': cases[i][1]})
     ctx.cov['hypotheses_hold_on'] = ctx.cov.get('hypotheses_hold_on', 0) + nwf
-    mismatch = None
-    for i, t, val in zip(idx, tables, vals):
-        a = canon_impl(impl[i])
-        b = canon_model(val, t)
-        d = first_diff(a, b)
-        if d and mismatch is None:
-            mismatch = (cases[i][0], cases[i][1], d)
-    ctx.count(evaluations=len(exprs), nontrivial_keys=keys)
-    for k, v in hist.items():
-        ctx.cov.setdefault('input_histogram', {})
-        ctx.cov['input_histogram'][k] = ctx.cov['input_histogram'].get(k, 0) + v
     return nviol, mismatch, impl
 
 
